@@ -169,6 +169,9 @@ func (r *Run) secret(val, label string) {
 	if where, ok := r.storageSeen[val]; ok {
 		i := strings.Index(where, ":")
 		r.violate("C20", "storage-secret", where+":"+label, "%s received the cleartext %s as %s", where[:i], label, where[i+1:])
+		if label == "device_code" || label == "user_code" {
+			r.violate("C16", "code-stored-in-cleartext", where+":"+label, "%s received the cleartext %s as %s (device and user codes are stored only as signatures)", where[:i], label, where[i+1:])
+		}
 	}
 }
 
